@@ -11,10 +11,15 @@ package main
 //        u:<k>                      UnSubscribe(id returned by the k-th s-op); res = .
 //        y:<k>:<variant>            UnSubscribe(a re-spelling of that id, see respell); res = .
 //        x:<idHex>                  UnSubscribe(arbitrary string); res = .
-//        d:<sess>:<type>            GetSubscribers; res = channel numbers, ascending
+//        d:<sess>:<type>            GetSubscribers; res = channel numbers, ascending (`!` appended if a slice returned by an
+//                                   EARLIER look-up of this history no longer holds what it held)
 //        m:<sess>:<type>[:<size>][+…] one inbound stream carrying these messages (payload of <size> bytes) through the
 //                                   real ProcessMessagesFromStream; res = per message the channel numbers that received it
 //                                   intact (`!` appended if any payload / session / type / sender arrived altered)
+//        o                          open an inbound stream that STAYS open (its number = how many o-ops came before); res = .
+//        w:<k>:<sess>:<type>[:<size>] one more message on open stream k, processed by the real ProcessMessagesFromStream
+//                                   loop of that stream; res = the channel numbers that received it
+//        q:<k>                      end of stream k; res = .
 //        c:<sess>                   CloseSession(sess) on the real Libp2pCommunication (an outbound stream of the session
 //                                   is registered first so that there is something to release); res = .
 //      retained entries: <sess>:<type>:<key>:<chan>, sorted, from the real subscribersMap after the last op.
@@ -23,10 +28,12 @@ import (
 	"bytes"
 	"encoding/json"
 	"io"
+	"reflect"
 	"runtime"
 	"sort"
 	"strconv"
 	"strings"
+	"sync"
 	"time"
 
 	"github.com/ChainSafe/sygma-relayer/comm"
@@ -54,6 +61,74 @@ func (s *c12Stream) Close() error               { return nil }
 
 const c12Remote = peer.ID("verif-remote-peer")
 
+// c12Live is an inbound stream that stays open: lines are fed one at a time; every time the handler comes back for more
+// data and finds none it signals `idle` — i.e. it has finished dispatching everything it was given.
+type c12Live struct {
+	network.Stream
+	mu     sync.Mutex
+	cond   *sync.Cond
+	queue  []byte
+	closed bool
+	idle   chan struct{}
+	done   chan struct{}
+	conn   *c12Conn
+}
+
+func newC12Live() *c12Live {
+	l := &c12Live{idle: make(chan struct{}, 1024), done: make(chan struct{}), conn: &c12Conn{remote: c12Remote}}
+	l.cond = sync.NewCond(&l.mu)
+	return l
+}
+
+func (l *c12Live) Read(p []byte) (int, error) {
+	l.mu.Lock()
+	defer l.mu.Unlock()
+	for len(l.queue) == 0 && !l.closed {
+		select {
+		case l.idle <- struct{}{}:
+		default:
+		}
+		l.cond.Wait()
+	}
+	if len(l.queue) == 0 {
+		return 0, io.EOF
+	}
+	n := copy(p, l.queue)
+	l.queue = l.queue[n:]
+	return n, nil
+}
+func (l *c12Live) Conn() network.Conn { return l.conn }
+func (l *c12Live) Close() error       { return nil }
+
+func (l *c12Live) feed(b []byte) {
+	l.mu.Lock()
+	for len(l.idle) > 0 { // forget idle signals of the past
+		<-l.idle
+	}
+	l.queue = append(l.queue, b...)
+	l.mu.Unlock()
+	l.cond.Broadcast()
+}
+
+func (l *c12Live) shut() {
+	l.mu.Lock()
+	l.closed = true
+	l.mu.Unlock()
+	l.cond.Broadcast()
+}
+
+// waitIdle: the handler asked for more input (it is done with what it had); false on timeout.
+func (l *c12Live) waitIdle() bool {
+	select {
+	case <-l.idle:
+		return true
+	case <-l.done:
+		return true
+	case <-time.After(10 * time.Second):
+		return false
+	}
+}
+
 func c12Unwrap(id comm.SubscriptionID) string {
 	res := "err"
 	s, t, k, err := id.Unwrap()
@@ -65,6 +140,9 @@ func c12Unwrap(id comm.SubscriptionID) string {
 
 // c12Pending reports whether a goroutine started inside the repository's comm/p2p package is still alive
 // (the fan-out goroutines of ProcessMessagesFromStream). Deterministic: it inspects goroutine stacks, not clocks.
+// the import path of the package under test, taken from the type itself (no literal path, no function name)
+var c12PkgPrefix = reflect.TypeOf(p2p.Libp2pCommunication{}).PkgPath() + "."
+
 func c12Pending() bool {
 	buf := make([]byte, 1<<16)
 	for {
@@ -75,7 +153,13 @@ func c12Pending() bool {
 		}
 		buf = make([]byte, 2*len(buf))
 	}
-	return bytes.Contains(buf, []byte("sygma-relayer/comm/p2p."))
+	// a goroutine of the package under test that is not a stream handler parked in our Read = a fan-out still running
+	for _, blk := range bytes.Split(buf, []byte("\n\n")) {
+		if bytes.Contains(blk, []byte(c12PkgPrefix)) && !bytes.Contains(blk, []byte("c12Live).Read")) {
+			return true
+		}
+	}
+	return false
 }
 
 // respell builds a subscription id that differs textually from the one issued for (sess, typ, suffix).
@@ -129,9 +213,108 @@ func c12Run(spec string) string {
 		pre := r.sess + "-" + strconv.Itoa(r.typ) + "-"
 		return strings.TrimPrefix(string(r.id), pre)
 	}
+	type lookup struct {
+		got  []chan *comm.WrappedMessage // the slice GetSubscribers returned (kept, not copied)
+		want []chan *comm.WrappedMessage // its contents at that moment
+	}
+	lookups := []lookup{}
+	lives := []*c12Live{}
+	defer func() {
+		for _, l := range lives {
+			l.shut()
+		}
+	}()
+	wseq := 0
+	// collect what subscribers received for the message whose payload starts with `marker`
+	collect := func(marker string, sess string, typ int, size int) (string, bool) {
+		deadline := time.Now().Add(10 * time.Second)
+		for c12Pending() {
+			if time.Now().After(deadline) {
+				return "hang", false
+			}
+			time.Sleep(20 * time.Microsecond)
+		}
+		got := []int{}
+		bad := false
+		want := append([]byte(marker), c12Payload(0, size)[2:]...)
+		if size < len(marker) {
+			want = []byte(marker)
+		}
+		for _, r := range subs {
+		drain:
+			for {
+				select {
+				case w := <-r.ch:
+					if !bytes.Equal(w.Payload, want) || w.SessionID != sess || int(w.MessageType) != typ || w.From != c12Remote {
+						bad = true
+					}
+					got = append(got, chanNo[r.ch])
+				default:
+					break drain
+				}
+			}
+		}
+		sort.Ints(got)
+		out := intsJoin(got)
+		if bad {
+			out += "!"
+		}
+		return out, true
+	}
 	for _, op := range items(spec, ";") {
 		f := strings.Split(op, ":")
 		switch f[0] {
+		case "o": // open an inbound stream that stays open
+			l := newC12Live()
+			lives = append(lives, l)
+			go func() {
+				defer close(l.done)
+				c.ProcessMessagesFromStream(l)
+			}()
+			if !l.waitIdle() {
+				return "hang"
+			}
+			res = append(res, ".")
+		case "w": // w:<stream>:<sess>:<type>[:<size>] one more message on an open stream; wait until it is dispatched
+			k := int(u64(f[1]))
+			sess, typ, size := string(unhx(f[2])), int(u64(f[3])), 0
+			if len(f) >= 5 {
+				size = int(u64(f[4]))
+			}
+			if k >= len(lives) {
+				res = append(res, "-")
+				break
+			}
+			wseq++
+			marker := "w" + strconv.Itoa(wseq) + "|"
+			payload := append([]byte(marker), c12Payload(0, size)[2:]...)
+			if size < len(marker) {
+				payload = []byte(marker)
+			}
+			b, err := json.Marshal(comm.WrappedMessage{MessageType: comm.MessageType(typ), SessionID: sess, Payload: payload, From: peer.ID("spoofed")})
+			if err != nil {
+				panic(err)
+			}
+			lives[k].feed(append(b, '\n'))
+			if !lives[k].waitIdle() {
+				return "hang"
+			}
+			out, ok := collect(marker, sess, typ, size)
+			if !ok {
+				return "hang"
+			}
+			res = append(res, out)
+		case "q": // q:<stream> end of an open stream
+			k := int(u64(f[1]))
+			if k < len(lives) {
+				lives[k].shut()
+				select {
+				case <-lives[k].done:
+				case <-time.After(10 * time.Second):
+					return "hang"
+				}
+			}
+			res = append(res, ".")
 		case "s":
 			ch := make(chan *comm.WrappedMessage, 1024)
 			typ := int(u64(f[2]))
@@ -161,7 +344,8 @@ func c12Run(spec string) string {
 			res = append(res, ".")
 		case "d":
 			got := []int{}
-			for _, ch := range c.GetSubscribers(string(unhx(f[1])), comm.MessageType(u64(f[2]))) {
+			looked := c.GetSubscribers(string(unhx(f[1])), comm.MessageType(u64(f[2])))
+			for _, ch := range looked {
 				n, ok := chanNo[ch]
 				if !ok {
 					n = 999999
@@ -169,7 +353,21 @@ func c12Run(spec string) string {
 				got = append(got, n)
 			}
 			sort.Ints(got)
-			res = append(res, intsJoin(got))
+			// results handed out earlier must not change because of this call (no shared scratch storage)
+			stale := false
+			for _, lk := range lookups {
+				for i := range lk.want {
+					if lk.got[i] != lk.want[i] {
+						stale = true
+					}
+				}
+			}
+			lookups = append(lookups, lookup{got: looked, want: append([]chan *comm.WrappedMessage{}, looked...)})
+			r := intsJoin(got)
+			if stale {
+				r += "!"
+			}
+			res = append(res, r)
 		case "m":
 			msgs := strings.Split(op[2:], "+")
 			var wire bytes.Buffer
@@ -371,6 +569,32 @@ func genC12(g *G) {
 	_ = closeOp
 	inter(nil, 0, 0, g.Count(6, 7), 1)
 	inter(nil, 0, 0, g.Count(5, 6), 2)
+	// --- one OPEN inbound stream (and two) while subscriptions change between its messages: every order of subscribe /
+	// cancel / message-on-the-stream up to the given length
+	var interLive func(ops []string, nsub, depth, maxLen, nb, ns int)
+	interLive = func(ops []string, nsub, depth, maxLen, nb, ns int) {
+		if depth > 0 {
+			g.Emit("run", strings.Join(ops, ";"))
+		}
+		if depth == maxLen {
+			return
+		}
+		ext := func(op string, n int) { interLive(append(append([]string{}, ops...), op), n, depth+1, maxLen, nb, ns) }
+		for b := 0; b < nb; b++ {
+			ext("s:"+bk[b], nsub+1)
+			for st := 0; st < ns; st++ {
+				ext("w:"+itoa(st)+":"+bk[b], nsub)
+			}
+		}
+		for k := 0; k < nsub; k++ {
+			ext("u:"+itoa(k), nsub)
+		}
+	}
+	interLive([]string{"o"}, 0, 0, g.Count(5, 6), 1, 1)
+	interLive([]string{"o", "o"}, 0, 0, g.Count(4, 5), 2, 2)
+	// look-ups whose results are held while further look-ups are made (no shared scratch storage between calls)
+	g.Emit("run", "s:"+bk[0]+";s:"+bk[0]+";s:"+bk[1]+";d:"+bk[0]+";d:"+bk[1]+";d:"+bk[0]+";u:0;d:"+bk[0]+";d:"+bk[1])
+	g.Emit("run", "s:"+bk[1]+";s:"+bk[0]+";d:"+bk[1]+";d:"+bk[0]+";d:"+hs("nobody")+":3;d:"+bk[1])
 	// --- histories
 	for i := 0; i < g.Count(2500, 120000); i++ {
 		ns := 1 + g.Intn(4)
@@ -424,6 +648,24 @@ func genC12(g *G) {
 				}
 				ops = append(ops, "m:"+strings.Join(ms, "+"))
 			}
+		}
+		if g.Intn(3) == 0 {
+			// the same history with its inbound messages arriving on two streams that stay open throughout
+			live := []string{"o", "o"}
+			for _, op := range ops {
+				if strings.HasPrefix(op, "m:") {
+					for _, m := range strings.Split(op[2:], "+") {
+						live = append(live, "w:"+itoa(g.Intn(2))+":"+m)
+					}
+				} else {
+					live = append(live, op)
+				}
+			}
+			if g.Intn(2) == 0 {
+				live = append(live, "q:0")
+			}
+			g.Emit("run", strings.Join(live, ";"))
+			continue
 		}
 		g.Emit("run", strings.Join(ops, ";"))
 	}
